@@ -8,7 +8,7 @@ import eqsig
 from eqsig import im
 
 from pbt import gen
-from pbt.core import clause
+from pbt.core import clause, enum_clause
 
 PROPERTY = "C09"
 CLAUSES = []
@@ -501,3 +501,29 @@ def cav_dp(case, ctx):
         final, float(cav[-1]) / G))
     s2 = np.asarray(ctx.lib(im.calc_cav_dp, ctx.lib(eqsig.AccSignal, -a, dt)))
     ctx.equal(s2, s, "standardised CAV of the sign-reversed record")
+
+
+# ---------------------------------------------------------------------------
+# very long records (continuous monitoring): lengths around 2^20
+
+
+def _giant_enum(tier, shard, nshards):
+    ns = [2 ** 20 + 6000] if tier == "quick" else [2 ** 20 - 1, 2 ** 20 + 2, 2 ** 20 + 6000, 2 ** 21 + 5]
+    for i, n in enumerate(ns):
+        if i % nshards == shard:
+            yield {"n": n, "dt": 0.005, "seed": 21 + i}
+
+
+@enum_clause(CLAUSES, "giant-records", _giant_enum,
+             rule="fixed very long records (1-2 million samples): every quadrature-defined measure",
+             oracle="reference model: long-double panel sums (same bounds as final-value); series length and exact monotonicity",
+             exhaustive_note="the listed lengths", quick_shards=1)
+def giant_records(case, ctx):
+    n, dt = case["n"], case["dt"]
+    a = np.random.RandomState(case["seed"]).standard_normal(n) * np.hanning(n) * 0.3 + 0.002
+    ctx.nt(True)
+    asig = ctx.lib(eqsig.AccSignal, a, dt)
+    _final_checks(ctx, asig, a, dt, " (n=%d)" % n)
+    for name, fn, _inp, _deg in MEASURES:
+        sr = _series(ctx, fn, asig, name)
+        ctx.check(bool(np.all(np.diff(sr) >= 0)), "%s series of a giant record is not non-decreasing" % name)
